@@ -91,6 +91,7 @@ def gen_pair_case(rng):
     if rng.random() < 0.4:
         # the slack given to a finished priority may depend on which priority it is
         c["options_by_priority"] = {"1": {"constraint_relaxation": rng.choice(["1/8", "1/2"])}}
+        c["options"] = {"fix_minimized_values": False}       # (with IPOPT the slack only applies then)
     return c
 
 
@@ -197,8 +198,8 @@ def run(ctx):
     else:
         cases = [c["case"] for c in core.corpus_cases(ID)] + [gen_pair_case(ctx.rng) for _ in range(ctx.n(7, 300))]
         # a finished priority that is given slack, and a later priority that uses it
-        for fn, tmin in (("y", 11.0), ("z", 21.0)):
-            cases.append({"k": "pair", "times": [0, 1, 2], "E": 1, "p": [0], "variant": "multi", "options": {},
+        for fn, tmin in (("y", 11.0), ("z", 19.5)):
+            cases.append({"k": "pair", "times": [0, 1, 2], "E": 1, "p": [0], "variant": "multi", "options": {"fix_minimized_values": False},
                           "options_by_priority": {"1": {"constraint_relaxation": ctx.rng.choice(["1/8", "1/4"])}},
                           "goals": [{"path": True, "fn": fn, "prio": 1, "k": 0, "order": 1, "weight": 1, "nominal": 1, "tmin": tmin},
                                     {"path": True, "fn": fn, "prio": 2, "k": 0, "order": ctx.rng.choice([1, 2]), "weight": 1, "nominal": 1,
@@ -271,7 +272,7 @@ def _run_gp(P, record):
             "z": [[float(v) for v in p.extract_results(m)["z"]] for m in range(p.ensemble_size)]}
 
 
-def vector_pair(rng):
+def vector_pair(rng, force_scale=False):
     from rtctools.optimization.goal_programming_mixin import Goal, GoalProgrammingMixin
     from rtctools.optimization.timeseries import Timeseries
     from .. import problems
@@ -289,7 +290,7 @@ def vector_pair(rng):
     cap = [float(rng.randint(0, 2)), float(rng.randint(0, 2))]           # a conflicting goal of the same priority
     order = rng.choice([1, 2])
     nom = [rng.choice([1.0, 2.0]), rng.choice([1.0, 4.0])]
-    scale = rng.random() < 0.6
+    scale = force_scale or rng.random() < 0.6
     weight = rng.choice([1.0, 2.0])
     desc = {"n": n, "E": E, "target_min": tmin.tolist(), "cap": cap, "order": order, "nominal": nom, "scale_by_problem_size": scale, "weight": weight}
 
@@ -465,7 +466,7 @@ def minabs_pair(rng):
 
 def further_pairs(ctx):
     rng = ctx.rng
-    jobs = [("vector", vector_pair(rng)) for _ in range(ctx.n(4, 120))] + [("minabs", minabs_pair(rng)) for _ in range(ctx.n(4, 120))]
+    jobs = [("vector", vector_pair(rng, force_scale=(i < 2))) for i in range(ctx.n(4, 120))] + [("minabs", minabs_pair(rng)) for _ in range(ctx.n(4, 120))]
     for kind, (desc, make) in jobs:
         outs = []
         for flag in (True, False):
